@@ -15,4 +15,9 @@ def run(ctx):
     obs += cp.import_rules(ctx, 'C18')
     obs += cp.txn_rule(ctx, 'C18')
     obs += [o for o in cp.int_rule(ctx, 'C18', writer_only=True) if '.ser/' in o['key']]
+    # wave 10: functions in an at-rule prelude are copied by the selector-aware routine (shared with C08.ctx), and a condition
+    # function is recognised by the spelling its dispatch knows (shared with C01: the other spellings reach unreachable!())
+    obs += [o for o in cp.ctx_rule(ctx, 'C18') if '/at-prelude/' in o['key']]
+    from rules.c01 import unreachable_dispatch_rule
+    obs += unreachable_dispatch_rule(ctx, "C18.wrap/functions/dispatch-guard")
     return obs
